@@ -44,7 +44,7 @@ R2Q_RANGES = {'small': (0.0, 1e-3), 'mid': (1e-3, 1.5), 'near-pi': (1.5, 1.5707)
 
 for _ax in ('z', 'x', '-y', '236', '122', '403'):
     for _rn, (_lo, _hi) in R2Q_RANGES.items():
-        @claim(f'r2q-roundtrip:{_ax}:{_rn}', split=True, tier='quick' if _ax in ('z', '236') else 'thorough')
+        @claim(f'r2q-roundtrip:{_ax}:{_rn}', split=True, tier='quick' if (_ax == 'z' or (_ax == '236' and _rn in ('mid', 'half-turn'))) else 'thorough')
         def _(h, ax=_ax, lo=_lo, hi=_hi):
             """R = rotation by 2*hf about a D-grid axis (hf the half angle): q2r(r2q(R)) = R and r2q(R) = +-(cos hf, sin hf * u)"""
             hf = h.angle('hf', lo, hi)
@@ -224,14 +224,19 @@ def _(h):
 
 # ----------------------------------------------------------------------------- twist <-> pose
 
-for _ax in ('z', '236'):
-    @claim(f'twist-roundtrip:{_ax}', values=True, split=True, tier='quick' if _ax == 'z' else 'thorough')
-    def _(h, ax=_ax):
-        R, th = rot_axis(h, 'th', AXES[ax], 1e-3, 3.14)
-        t = h.vec('t', 3, -1e3, 1e3)
-        T = hom(h, R, t)
-        X = SE3(T, check=False)
-        tw = X.Twist3()
-        h.is_type('type', tw, Twist3)
-        h.eq('Twist3(T).exp() = T', base.trexp(tw.S), T, tol=1e-6, scale=1 + nsq(t))
-        h.same('Twist3(SE3) same as SE3.Twist3()', Twist3(X).S, tw.S)
+# the half-turn band of trlog is |trace+1| < 100 eps, i.e. within 1.49e-7 rad of pi; [pi-1.4e-7, pi] is inside it in doubles too
+TW_RANGES = {'mid': (1e-3, 3.14), 'near-pi': (3.14, math.pi - 2e-7), 'half-turn-band': (math.pi - 1.4e-7, math.pi)}
+
+for _ax in ('z', '236', '122'):
+    for _rn, (_lo, _hi) in TW_RANGES.items():
+        @claim(f'twist-roundtrip:{_ax}:{_rn}', values=True, split=True, tier='quick' if _ax in ('z', '236') else 'thorough')
+        def _(h, ax=_ax, lo=_lo, hi=_hi):
+            R, th = rot_axis(h, 'th', AXES[ax], lo, hi)
+            t = h.vec('t', 3, -1e3, 1e3)
+            T = hom(h, R, t)
+            X = SE3(T, check=False)
+            tw = X.Twist3()
+            h.is_type('type', tw, Twist3)
+            h.true('rotation magnitude <= pi', nsq(tw.w) <= math.pi ** 2 * (1 + 1e-9))
+            h.eq('Twist3(T).exp() = T', base.trexp(tw.S), T, tol=1e-6, scale=1 + nsq(t))
+            h.same('Twist3(SE3) same as SE3.Twist3()', Twist3(X).S, tw.S)
